@@ -172,6 +172,21 @@ def check(ck: Checker) -> None:
                        "effectful statement can run before / despite the read-only refusal",
                        witness=g.fmt_path(wit) if wit else None, construct=f"{nd.text()} / after read_only test")
 
+    # the listing and the removal concern the same store object
+    rm_roots = {attr_chain(c.func)[0] for nd, c, k in destr if attr_chain(c.func)}
+    for nd, c in listing:
+        ch = attr_chain(c.func)
+        ck.require(bool(ch) and ch[0] in rm_roots and _param_unassigned(gc, ch[0]), "C06.used", gc, nd,
+                   "the objects listed are those of the store that is collected",
+                   f"the store that is listed ({ch[0] if ch else '?'}) is not the (un-reassigned) store whose objects are removed ({sorted(rm_roots)}): unused objects of the collected store are never seen", construct=f"{norm(c)} / listed store")
+    # read_only reaches the base class
+    init = ck.prog.func("hashfile.db", "HashFileDB.__init__")
+    sup = [c for c in walk_own(init.node) if isinstance(c, ast.Call) and isinstance(c.func, ast.Attribute) and c.func.attr == "__init__" and norm(c.func.value).startswith("super(")]
+    okro = any(any(k.arg == "read_only" and norm(k.value) == "read_only" for k in c.keywords) or (len(c.args) >= 3 and norm(c.args[2]) == "read_only") for c in sup)
+    ck.require(okro and init.has_param("read_only"), "C06.readonly", init, sup[0] if sup else init.node,
+               "the read_only constructor argument is forwarded to the object store base class",
+               "HashFileDB.__init__ does not forward read_only to ObjectDB: a store opened read-only reports read_only=False and gc accepts it")
+
     # ---------------------------------------------------------------- used
     # lists handed to removal
     removal_lists: Set[str] = set()
